@@ -670,7 +670,7 @@ func checkC20Restore(p *Prog, r *Report, ru *Rule) {
 				switch {
 				case !isMainPkg:
 					ru.Bad(cons, posOf(i), "%s in a library function: the process ends without running the deferred terminal restoration", calleeName(c))
-				case top == rm || ("main" == top.Name() || "rmain" == top.Name()):
+				case top == rm || "main" == top.Name() || strings.HasSuffix(renameImage[top], ".rmain") || "rmain" == top.Name():
 					ru.OK(cons, posOf(i), "in package main")
 				default:
 					ru.Bad(cons, posOf(i), "%s outside main/rmain", calleeName(c))
